@@ -575,6 +575,14 @@ def gen_C07(rng, tier):
         if n > 1:
             L.append('m 2 set_bit %d %d' % (rng.randrange(n), rng.randrange(2))); L.append('eq 0 2')
         cases.append(L)
+    # scans across tens of thousands of words without a hit (a scan must not cost stack or time per word beyond a loop step)
+    n = (4000000 if tier == 'quick' else 40000000) + rng.randrange(0, 64)
+    L = ['case C07-long-scans n=%d' % n, 'new 0 bv from_bit 0 %d' % n, 'm 0 set_bit 5 1', 'm 0 set_bit %d 1' % (n - 1),
+         'q 0 successor1 6', 'q 0 predecessor1 %d' % (n - 2), 'q 0 successor1 0', 'q 0 select1 1', 'q 0 select1 2', 'q 0 rank1 %d' % n, 'q 0 successor0 0', 'q 0 select0 %d' % (n - 3),
+         'new 1 bv from_bit 1 %d' % n, 'm 1 set_bit 7 0', 'm 1 set_bit %d 0' % (n - 2),
+         'q 1 successor0 8', 'q 1 predecessor0 %d' % (n - 3), 'q 1 select0 1', 'q 1 select0 2', 'q 1 rank0 %d' % n, 'q 1 predecessor1 %d' % (n - 1), 'q 1 select1 %d' % (n - 3),
+         'new 2 bv from_bit 0 %d' % n, 'q 2 successor1 0', 'q 2 predecessor1 %d' % (n - 1), 'q 2 select1 0', 'q 2 select0 %d' % (n - 1)]
+    cases.append(L)
     return cases
 
 def gen_C07_exhaustive():
@@ -731,6 +739,18 @@ def gen_C09(rng, tier):
     return cases
 
 def dac_vals(rng, tier, ci):
+    xs = dac_vals0(rng, tier, ci)
+    if xs and ci % 3 == 1:
+        # the maximum is a boundary value with few bits set (an exact power of two, one less, one more): level-width
+        # boundaries 2^(8j), and single high bits that a smear-based msb has to carry all the way down
+        k = rng.choice([8, 8, 16, 24, 32, 32, 40, 48, 56, 63, rng.randrange(1, 64), rng.randrange(32, 64)])
+        B = rng.choice([1 << k, 1 << k, (1 << k) - 1, (1 << k) + 1, (1 << k) | rng.getrandbits(min(k, 12))])
+        xs = [x % (B + 1) for x in xs]
+        if ci % 2: xs = [x & 0xff for x in xs]        # … over an otherwise small population
+        xs[rng.randrange(len(xs))] = B
+    return xs
+
+def dac_vals0(rng, tier, ci):
     n = rng.choice([0, 1, 2, 10, 100, 600, 1500]) if tier == 'quick' else rng.choice([0, 1, 100, 1000, 5000])
     mode = ci % 8
     if mode == 0: return [0] * n
@@ -762,6 +782,13 @@ def gen_C10(rng, tier, prop='C10'):
             if n <= 1500: L.append('q 0 ser')
             L.append('q 0 size_in_bytes')
         cases.append(L)
+    # the maximum is a single bit / all ones below a bit, for every bit position
+    for k in range(0, 64, 1 if tier != 'quick' else 3):
+        for B in ((1 << k), (1 << (k + 1)) - 1):
+            xs = [rng.getrandbits(rng.choice([1, 4, 7])) & B for _ in range(rng.choice([1, 6, 30]))]; xs[rng.randrange(len(xs))] = B; n = len(xs)
+            L = ['case %s-onebit-%d' % (prop, B), 'new 0 do from_slice %s %s' % (rng.choice(['none', '2', '3', '8']), lst(xs)), 'q 0 num_levels', 'q 0 widths']
+            if prop == 'C10': L += ['q 0 access %d' % i for i in range(n + 1)] + ['it 0 iter - %s' % ','.join(['n'] * (n + 1))]
+            cases.append(L)
     if prop == 'C10':
         L = ['case C10-limits']
         xs = [rng.getrandbits(rng.randrange(1, 65)) for _ in range(200)]
@@ -791,6 +818,11 @@ def gen_C11(rng, tier):
         xs = [rng.getrandbits(8) for _ in range(rng.choice([0, 1, 70]))]; ys = [rng.getrandbits(32) for _ in range(rng.choice([1, 70]))]
         cases.append(['case C11-types-%d' % ci, 'new 0 db from_slice_u8 %s' % lst(xs), 'q 0 len', 'q 0 num_levels', 'q 0 access 0', 'q 0 access %d' % len(xs),
                       'new 1 db from_slice_u32 %s' % lst(ys), 'q 1 len', 'q 1 num_levels', 'q 1 access 0', 'q 1 access %d' % (len(ys) - 1)])
+    # the maximum sits exactly on / next to a level boundary 2^(8j)
+    for j in range(1, 9):
+        for B in ((1 << 8 * j) - 1, min(MAXU, 1 << 8 * j), min(MAXU, (1 << 8 * j) + 1)):
+            xs = [rng.getrandbits(rng.choice([3, 8])) for _ in range(rng.choice([1, 5, 40]))]; xs[rng.randrange(len(xs))] = B; n = len(xs)
+            cases.append(['case C11-boundary-%d' % B, 'new 0 db from_slice %s' % lst(xs), 'q 0 num_levels', 'q 0 widths'] + ['q 0 access %d' % i for i in range(n + 1)] + ['it 0 iter - %s' % ','.join(['n'] * (n + 1)), 'q 0 size_in_bytes'])
     cases.append(['case C11-misc', 'new 0 db default', 'q 0 len', 'q 0 num_levels', 'q 0 access 0', 'new 1 db from_slice_i64 3,-1', 'new 2 db from_slice -', 'q 2 len', 'q 2 num_levels', 'eq 0 2'])
     return cases
 
@@ -937,6 +969,21 @@ def gen_C16(rng, tier):
         L += ['q 1 select %d' % n, 'q 1 select %d' % (n + 1)]
         if n: L.append('it 1 iter 0 %s' % ','.join(['n'] * min(n + 2, 50)))
         else: L.append('it 1 iter 0 n,n')
+        cases.append(L)
+    # large builders: what is built must be what was accepted also when the high bits get sparse 1024-blocks, and when the
+    # final partial block of 32j+1 accepted values spans exactly the dense/sparse threshold of the select index
+    shapes = [(u_, xs_, 'big-%d' % i) for i, (u_, xs_) in enumerate(big_ef_shapes(rng, tier)[:(1 if tier == 'quick' else 3)])]
+    for span, j in ([(65536, 1)] if tier == 'quick' else [(65535, 1), (65536, 1), (65537, 1), (65536, 3)]):
+        u_, xs_ = exact_span_seq(span, j); shapes.append((u_, xs_, 'span-%d-%d' % (span, j)))
+    for u, xs, name in shapes:
+        n = len(xs); cap = n + rng.choice([0, 0, 5])
+        L = ['case C16-%s u=%d n=%d' % (name, u, n), 'new 0 efb new %d %d' % (u, cap)]
+        cut = rng.randrange(1, n)
+        L += ['m 0 extend %s' % lst(xs[:cut]), 'm 0 push %d' % u, 'm 0 push %d' % max(0, xs[cut - 1] - 1) if xs[cut - 1] else 'q 0 num_vals', 'm 0 extend %s' % lst(xs[cut:]), 'q 0 num_vals']
+        L.append('new 1 ef build 0 1'); L += ['q 1 len', 'q 1 universe']
+        for k in sorted(set([0, 1, 1023, 1024, 65535, 65536, n - 34, n - 33, n - 2, n - 1, n, cut - 1, cut] + [rng.randrange(0, n) for _ in range(12)])):
+            if 0 <= k <= n: L.append('q 1 select %d' % k)
+        L.append('it 1 iter %d n,n,n,n' % max(0, n - 3))
         cases.append(L)
     return cases
 
